@@ -44,6 +44,10 @@ CHECKS = {
         text='Paths are behaviours of a walker on the periodic voxel grid; TLC model-checks on every small grid that no walker behaviour beats the Bellman-Ford operator MinCost and that MinCost/MinPeak are attained, then uses these operators to judge recorded optimal_path (5 methods, both neighbourhoods) and optimal_percolating_path (7 direction sets, several peaks) results: validity, reported energies, minimal cost, image one cell away, best over peaks, wrapped/fractional sites.',
         note='Trusted: TLC; integer energies so that costs are exact; ties not compared. minmax-energy = dijkstra is known finding D7.',
         ref='DESIGN.md 8/C10', technique='TLA+ spec Grid.tla (walker, MinCost, MinPeak, Tile); TLC model checking (MC_Walker) + trace validation (TraceGrid.tla)'),
+    'C11': dict(
+        text='Pair histograms and their partition over site states are TLA+ operators over integer grid positions and the integer metric tensor; TLC checks on every bounded site history that the state classification is a partition with the stated meaning, and recomputes every minimum-image pair distance to judge recorded radial_distribution_between_species (both species orders) and Transitions.radial_distribution results bin by bin.',
+        note='Trusted: TLC; exact-lattice abstraction (/64 grid); bin edges kept 2e-5 (relative) away from every attainable distance; shell normalisation removed by alpha.',
+        ref='DESIGN.md 8/C11', technique='TLA+ spec Rdf.tla (PairCount, StateClass, StateCounts); TLC model checking (MC_Sites InvStateClassPartition) + trace validation (TraceRdf.tla)'),
     'C12': dict(
         text='The sorted scan of collective.py is transcribed into TLA+ and TLC proves it equal to the declarative pair definition on every bounded jump table (negative control: the early exit originally coded is refuted); TLC-exported tables are replayed through Collective and random tables in real cells are judged by the trace spec with exact site distances.',
         note='Trusted: TLC; tables injected through the public Jumps(conversion_method=...) parameter; cut-offs kept 1e-4 away from site distances.',
